@@ -14,7 +14,7 @@ for sid in ids:
     d = os.path.join('/verif/seeded', sid)
     if not os.path.exists(os.path.join(d, 'patch.diff')):
         continue
-    prop = sid.split('_')[0]
+    prop = re.match(r'C\d+', sid).group(0)
     if subprocess.run(['git', '-C', os.environ['VERIF_REPO'], 'diff', '--quiet']).returncode != 0:
         print('/repo dirty'); sys.exit(1)
     r = subprocess.run(['git', '-C', os.environ['VERIF_REPO'], 'apply', '--check', os.path.join(d, 'patch.diff')], capture_output=True, text=True)
